@@ -3,6 +3,12 @@
 
     c02 reset …                                  -> ok
     c02 part <name> <isXml> <bytes>              -> ok | malformed | not-utf8       (independent XML reader)
+    c02 part <name> <isXml> <bytes> <w|r>        -> the same, followed by ` render=same` (w: a part written through
+                                                    writer/driver.rs: the tree of writer calls recovered from the part,
+                                                    rendered by `Umya.XmlWrite.renderDoc`, IS the part, character for
+                                                    character, and satisfies the hypotheses of `C02_bytes_parse`),
+                                                    ` render=differs@<offset> …`, or ` render=skipped` (r: a part copied
+                                                    verbatim / written raw; the actual outcome is reported after ` ## `)
     c02 decode                                   -> errs=<n>;<first violations>;view=<decoded view>
     c02 bridge cells=<facts> sst=<facts> model=<cells|~>
                                                  -> ok | differs <what>   ## counts
@@ -18,6 +24,7 @@ import Umya.Driver.Proto
 import Umya.Driver.C01
 import Umya.Model.CellNode
 import Umya.Spec.Sml
+import Umya.Driver.XmlRender
 namespace Umya.Driver.C02
 open Umya.Spec.Xml Umya.Spec.Sml Umya.Proto
 
@@ -198,15 +205,21 @@ end Bridge
 def handle (st : St) (args : List String) : St × String :=
   match args with
   | "reset" :: _ => ({}, "ok")
-  | ["part", nameHex, isXml, dataHex] =>
+  | "part" :: nameHex :: isXml :: dataHex :: more =>
     match decodeStr nameHex, hexDecodeBytes (if dataHex = "-" then "" else dataHex) with
     | some name, some bytes =>
       let nm := String.ofList name
       if isXml = "1" then
         match String.fromUTF8? bytes with
         | some s =>
-          let tree := parse (stripBom s.toList)
-          ({ parts := st.parts ++ [{ name := nm, xml := tree, isXml := true }] }, if tree.isSome then "ok" else "malformed")
+          let cs := stripBom s.toList
+          let tree := parse cs
+          let render :=
+            match more with
+            | ["w"] => " " ++ Umya.Driver.XmlRender.reply cs
+            | ["r"] => " render=skipped ## actual " ++ ((Umya.Driver.XmlRender.reply s.toList).replace " ## " " ")
+            | _ => ""
+          ({ parts := st.parts ++ [{ name := nm, xml := tree, isXml := true }] }, (if tree.isSome then "ok" else "malformed") ++ render)
         | none => ({ parts := st.parts ++ [{ name := nm, xml := none, isXml := true }] }, "not-utf8")
       else ({ parts := st.parts ++ [{ name := nm, xml := none, isXml := false }] }, "ok")
     | _, _ => (st, "bad-op")
